@@ -4,7 +4,6 @@ import (
 	"context"
 	"errors"
 	"io"
-	"math/rand"
 	"sort"
 	"sync"
 	"sync/atomic"
@@ -484,8 +483,9 @@ func (this *Dataset) getSearchQueryNodes() map[uint64][]uuid.UUID {
 
 	result := make(map[uint64][]uuid.UUID)
 	for _, partition := range this.partitions {
-		partitionNodeIds := partition.nodeIds()
-		nodeId := partitionNodeIds[rand.Intn(len(partitionNodeIds))]
+		// (node 0 - which no node is - for a partition that lost all replicas: the
+		// search fails with an error instead of panicking in rand.Intn(0))
+		nodeId := partition.randomNodeId()
 		if _, exists := result[nodeId]; !exists {
 			result[nodeId] = make([]uuid.UUID, 0)
 		}
